@@ -2,6 +2,7 @@ package main
 
 import (
 	"bytes"
+	"path/filepath"
 	"encoding/json"
 	"fmt"
 	"strings"
@@ -19,6 +20,7 @@ import (
 // ---- C09: dry run touches nothing and predicts the real run
 
 type c09Replay struct {
+	MissingTarget bool `json:"missing_target,omitempty"` // WithTargetDir names a directory that does not exist yet
 	Kind  string   `json:"kind"`
 	Depth []int    `json:"depth"`
 	Names []string `json:"names"`
@@ -54,17 +56,21 @@ func c09Case(c *rep.Ctx, r c09Replay) {
 	doc := enum.Spell(r.Depth, r.Names, enum.Canonical)
 	j := fsx.NewJail("c09")
 	defer j.Remove()
+	target := j.Target
+	if r.MissingTarget {
+		target = filepath.Join(j.Target, "not", "yet", "there")
+	}
 	before := fsx.Snapshot(j.Root)
 	var root *model.Node
 	if r.Route == "mkdir-root-dry" {
 		root = f[0]
 	}
-	out, err, pan := c09Dry(r.Route, doc, root, r.Exts, j.Target)
+	out, err, pan := c09Dry(r.Route, doc, root, r.Exts, target)
 	after := fsx.Snapshot(j.Root)
 	c.Eval()
 	c.Trans(1)
 	size := len(r.Depth)*100 + len(strings.Join(r.Names, "")) + len(r.Exts)
-	desc := fmt.Sprintf("route=%s doc=%q exts=%q", r.Route, doc, r.Exts)
+	desc := fmt.Sprintf("route=%s doc=%q exts=%q missingTarget=%v", r.Route, doc, r.Exts, r.MissingTarget)
 	if pan != "" {
 		c.Violation("C09|panic|"+r.Route, desc+": "+pan, size, r)
 		return
@@ -152,7 +158,10 @@ func init() {
 					if rt == "mkdir-root-dry" && roots != 1 {
 						continue
 					}
-					c09Case(c, c09Replay{"c09", append([]int{}, d...), names, ex, rt})
+					c09Case(c, c09Replay{Kind: "c09", Depth: append([]int{}, d...), Names: names, Exts: ex, Route: rt})
+					if len(d) <= 3 {
+						c09Case(c, c09Replay{Kind: "c09", Depth: append([]int{}, d...), Names: names, Exts: ex, Route: rt, MissingTarget: true})
+					}
 				}
 			}
 		}
